@@ -179,8 +179,9 @@ def apply_scale(rng, case):
     the model is fed the scaled values"""
     if rng.random() >= 0.3:
         return
-    kW = rng.randint(-200, 200)
-    kb = kW if rng.random() < 0.3 else rng.randint(-200, 200)
+    span = 40 if (case.get("large") or case["m"] * case["n"] > 60) else 200      # exact arithmetic cost in Coq grows with the exponents
+    kW = rng.randint(-span, span)
+    kb = kW if rng.random() < 0.3 else rng.randint(-span, span)
     case["W"] = case["W"] * 2.0 ** kW
     case["b"] = case["b"] * 2.0 ** kb
     g = case.get("guess")
@@ -425,6 +426,16 @@ def run(ctx):
         "arrays of any layout for W, b, guess - Cython typed memoryviews; NNLS/LSQ: W must have .shape, a nested-list Tikhonov "
         "matrix only with a 0-d alpha; SVD: b must have .reshape); the observed outcome is compared with it in Coq; accepted forms "
         "go through the same ties as float64",
+        "regular input classes of both tiers besides the random systems: histories on live objects (the same W, b, L objects and the "
+        "returned array re-used for three successive runs, W / b changed in place across a guard and restored; every step compared "
+        "with a freshly built call and run through the Coq tie), exact boundaries (conv_tol equal to an observed |c_k - c_(k-1)| and "
+        "one ulp either side, decided by replaying the rule on the implementation's own convergence values; -0.0 entries; no rows / "
+        "no columns; max_iterations 0, 1, 2, negative, default 250), scales 2^-200 .. 2^200 for W and b independently, call styles "
+        "(positional, keywords, optional arguments left to their documented defaults, package re-export vs defining module, "
+        "solver keyword arguments), and the search's scale-covariance and observation-order checks",
+        "floating-point range is not modelled: |b|^2 must neither underflow nor overflow (|b| within about 1e-150 .. 1e150, else the "
+        "implementation raises ZeroDivisionError / reports nan or inf convergence and residual values); NNLS is not given a system "
+        "without columns (scipy.optimize.nnls aborts the interpreter there)",
         "single precision inside the implementation (not promoted to double by the code): scipy's pinv works in float32 for a "
         "float32 / uint8 / bool W (invert_svd), NumPy forms alpha*L in float32 for a float32 Tikhonov matrix (NNLS/LSQ); for "
         "these inputs the certificates are asked for at 2^-17 / the handed-over system at 2^-21",
@@ -479,8 +490,8 @@ def run(ctx):
                 corpus_cases.append(c)
 
     # ---- SART cases ------------------------------------------------------------------------------
-    n_run = 40 if quick else 400
-    n_trace = 100 if quick else 2500
+    n_run = 32 if quick else 400
+    n_trace = 76 if quick else 2500
     sart_cases = [c for c in corpus_cases if c["kind"] in ("sart", "csart")]
     for i in range(n_run):
         sart_cases.append(gen_sart_case(rng, rng.choice(["int", "int", "dyadic"]), False, i % 2 == 1))
@@ -602,7 +613,7 @@ def run(ctx):
                     sart_cases.append(d)
 
     # ---- least-squares cases -------------------------------------------------------------------
-    n_lsq = 64 if quick else 1200
+    n_lsq = 56 if quick else 1200
     lsq_cases = [c for c in corpus_cases if c["kind"] in ("nnls", "lstsq", "svd")]
     for i in range(n_lsq):
         lsq_cases.append(gen_lsq_case(rng, rng.choice(["int", "dyadic", "float", "float"]), ["nnls", "lstsq", "nnls", "svd"][i % 4]))
@@ -818,7 +829,7 @@ def run(ctx):
         if case.get("tie") == "forms":
             return 1
         sweeps = ((case.get("impl") or {}).get("sweeps") or 0) if case["kind"] in ("sart", "csart") else 3
-        return 1 + case["m"] * case["n"] * (1 + sweeps) * (3 if case["mode"] == "float" else 1)
+        return 1 + case["m"] * case["n"] * (1 + sweeps) * (3 if case["mode"] == "float" else 1) * (3 if "scaled" in case["tags"] else 1)
     n_shards = 16 if quick else max(16, len(entries) // 25)
     order = sorted(range(len(entries)), key=lambda i: -cost(entries[i][1]))
     bins = [[0, []] for _ in range(n_shards)]
